@@ -19,3 +19,6 @@ def check(repo, rep, tier):
     rep.run(rb.rule_undo_on_all_exits, em, rep, 'C17.P5')
     rep.run(rb.rule_no_exception_capture, em, rep, 'C17.P6')
     rep.run(rx.rule_depth_error_propagates, em, rep, 'C17.P7')
+    # a search that is cut off must not leave anything behind in the engine: queries do not write engine state
+    from .. import rules_state as rs
+    rep.run(rs.rule_queries_read_only, em, rep, 'C17.P8')
